@@ -231,6 +231,11 @@ def gen(rng, tier):
     yield {"kind": "rng-trace", "mode": "weak", "sub": rng.randrange(1 << 30)}
     yield {"kind": "distinct-rows", "parallel": True, "ntraj": 16, "sub": rng.randrange(1 << 30)}
     yield {"kind": "distinct-rows", "parallel": False, "ntraj": 8, "sub": rng.randrange(1 << 30)}
+    for m in ("strong", "analog1", "analog2"):
+        yield {"kind": "noise-run", "mode": m, "sub": rng.randrange(1 << 30)}
+    for _ in range(3 * n):
+        yield {"kind": "noise-init", "sub": rng.randrange(1 << 30)}
+        yield {"kind": "noise-sample", "sub": rng.randrange(1 << 30)}
     for _ in range(n):
         yield {"kind": "history", "sub": rng.randrange(1 << 30)}
     if tier == "thorough":
@@ -704,6 +709,271 @@ def run_distinct(inp):
             "sig": f"distinct:{inp['parallel']}"}
 
 
+
+# --------------------------------------------------------------------------------------------------------------
+# NoiseModel.__init__ / NoiseModel.sample  vs  Model.NoiseNorm  (value tie + "caller's objects untouched" oracles)
+# --------------------------------------------------------------------------------------------------------------
+from mqt.yaqs.core.libraries.noise_library import NoiseLibrary  # noqa: E402
+from mqt.yaqs.core.data_structures import noise_model as _nm_mod  # noqa: E402
+
+LIB_NAMES = sorted([n for n in dir(NoiseLibrary) if not n.startswith("_")] + list(_nm_mod.PAULI_MAP))
+ONE_SITE = ["lowering", "raising", "pauli_x", "pauli_y", "pauli_z", "dephasing", "x", "y", "z"]
+TWO_SITE = ["crosstalk_xx", "crosstalk_xy", "crosstalk_zy", "crosstalk_yz", "longrange_crosstalk_xz", "longrange_crosstalk_yy",
+            "crosstalk_ab", "crosstalk_x", "longrange_crosstalk_xyz", "lowering_two", "raising_two", "custom_pair", "nosuchprocess"]
+
+
+def _rand_strength(rng):
+    r = rng.random()
+    if r < 0.55:
+        return rng.choice([0.0, 0.1, 0.25, 1.5, 2, 1e-3])
+    kind = rng.choice(["normal", "normal", "lognormal", "truncated_normal", "truncated_normal", "uniform", None])
+    d = {"mean": rng.choice([0.1, -0.3, 0.0, 0.5]), "std": rng.choice([0.0, 0.05, 0.2, 1e-9])}
+    if kind is not None:
+        d["distribution"] = kind
+    if rng.random() < 0.15:
+        d.pop("std")
+    return d
+
+
+def _rand_proc(rng, L):
+    r = rng.random()
+    if r < 0.4:
+        name, sites = rng.choice(ONE_SITE + ["nosuchprocess"] * (rng.random() < 0.1)), [rng.randrange(L)]
+    elif r < 0.95:
+        a = rng.randrange(L)
+        b = rng.randrange(L)
+        name, sites = rng.choice(TWO_SITE), [a, b]
+    else:
+        name, sites = rng.choice(ONE_SITE), [rng.randrange(L) for _ in range(rng.choice([0, 3]))]
+    proc = {"name": name, "sites": sites, "strength": _rand_strength(rng)}
+    if rng.random() < 0.25:
+        d = 2 ** max(1, len(sites))
+        proc["matrix"] = np.arange(d * d, dtype=complex).reshape(d, d) + 1j
+    if rng.random() < 0.25:
+        proc["factors"] = (np.array([[0, 1], [1, 0]], dtype=complex), np.array([[1, 0], [0, -1j]], dtype=complex))
+    return proc
+
+
+def _strength_tok(st):
+    if isinstance(st, dict):
+        return f"d:{st.get('distribution', '-')}:{ib.frac(st.get('mean', 0.0))}:{ib.frac(st.get('std', 0.0))}"
+    return "v:" + ib.frac(float(st))
+
+
+def _snap(obj):
+    """deep, comparable snapshot of a process list (arrays → bytes)"""
+    if isinstance(obj, dict):
+        return {k: _snap(v) for k, v in obj.items()}
+    if isinstance(obj, (list, tuple)):
+        return [type(obj).__name__] + [_snap(v) for v in obj]
+    if isinstance(obj, np.ndarray):
+        return ("nd", obj.shape, str(obj.dtype), obj.tobytes())
+    return obj
+
+
+class _QueueGen(np.random.Generator):
+    """a real Generator whose normal / lognormal return queued values (so the model sees the same variates)"""
+
+    def __init__(self, draws):
+        super().__init__(np.random.PCG64(1))
+        self._draws = list(draws)
+
+    def normal(self, loc=0.0, scale=1.0, size=None):  # noqa: ARG002
+        return self._draws.pop(0)
+
+    def lognormal(self, mean=0.0, sigma=1.0, size=None):  # noqa: ARG002
+        return self._draws.pop(0)
+
+
+def run_noise_init(inp):
+    rng = random.Random(inp["sub"])
+    L = rng.choice([2, 3, 5])
+    procs = [_rand_proc(rng, L) for _ in range(rng.choice([1, 2, 3, 4, 6]))]
+    before = _snap(procs)
+    err, nm = None, None
+    try:
+        nm = NoiseModel(procs)
+    except AssertionError:
+        err = "err:assertion"
+    except AttributeError:
+        err = "err:attribute"
+    probs = []
+    if _snap(procs) != before:
+        probs.append("NoiseModel(processes) wrote to the caller's process dicts")
+    toks = [f"{p['name']};{','.join(str(x) for x in p['sites'])};{_strength_tok(p['strength'])};{int('matrix' in p)};{int('factors' in p)}"
+            for p in procs]
+    req = "nnorm " + ",".join(LIB_NAMES) + " | " + " ".join(toks)
+    if err is not None:
+        impl = err
+    else:
+        outs = []
+        for p_in, p in zip(procs, nm.processes):
+            sites = p["sites"]
+            two_far = len(sites) == 2 and abs(sites[1] - sites[0]) != 1
+            if two_far:
+                fill = "callerFactors" if "factors" in p_in else "pauliFactors"
+                if "factors" not in p:
+                    probs.append(f"long-range process {p['name']}@{sites} stored without factors")
+                elif "factors" in p_in and p["factors"] is not p_in["factors"]:
+                    probs.append("caller's factors replaced")
+            else:
+                if "matrix" not in p:
+                    probs.append(f"process {p['name']}@{sites} stored without matrix")
+                    fill = "?"
+                elif "matrix" in p_in and p["matrix"] is p_in["matrix"]:
+                    fill = "callerMatrix"
+                elif len(sites) == 2 and str(p["name"]).startswith("crosstalk_"):
+                    a, b = str(p["name"]).rsplit("_", 1)[-1]
+                    fill = "kronMatrix" if np.array_equal(p["matrix"], np.kron(_nm_mod.PAULI_MAP[a], _nm_mod.PAULI_MAP[b])) else "wrongkron"
+                else:
+                    fill = "libMatrix" if np.array_equal(p["matrix"], NoiseModel.get_operator(p["name"])) else "wronglib"
+            if p["strength"] is not p_in["strength"] and p["strength"] != p_in["strength"]:
+                probs.append(f"strength of {p['name']} changed by the constructor")
+            outs.append(f"{p['name']};{','.join(str(x) for x in sites)};{fill};{int('factors' in p)}")
+        impl = "ok " + " ".join(outs) if outs else "ok"
+    return {"req": req, "impl": impl, "kind": "noise-init",
+            "oracle": {"ok": not probs, "detail": "; ".join(probs) or "constructor leaves the caller's dicts alone and stores a usable description"},
+            "sig": f"noise-init:{impl.split()[0]}:{len(procs)}:{sorted({len(p['sites']) for p in procs})}", "nontrivial": len(procs) > 1}
+
+
+def run_noise_sample(inp):
+    rng = random.Random(inp["sub"])
+    L = 4
+    procs = []
+    while len(procs) < rng.choice([1, 2, 3, 5]):
+        p = _rand_proc(rng, L)
+        if p["name"] in ("nosuchprocess", "crosstalk_ab", "crosstalk_x", "longrange_crosstalk_xyz", "custom_pair", "lowering_two", "raising_two") \
+                or len(p["sites"]) > 2 or len(p["sites"]) == 0:
+            continue
+        if isinstance(p["strength"], dict) and abs(p["strength"].get("std", 0.0)) in (1e-9,) and p["strength"].get("distribution") == "truncated_normal" and rng.random() < 0.5:
+            p["strength"]["std"] = 0.0
+        procs.append(p)
+    try:
+        nm = NoiseModel(procs)
+    except (AssertionError, AttributeError):
+        return []
+    # what the generator hands back: any real for `normal`, a positive number for `lognormal`
+    draws = [rng.choice([0.07, 0.3, 1.25]) if (isinstance(p["strength"], dict) and p["strength"].get("distribution") == "lognormal")
+             else rng.choice([-0.2, 0.0, 0.07, 0.3, 1.25]) for p in procs]
+    before = _snap(nm.processes)
+    # truncated_normal with std > 1e-8 goes through scipy's truncnorm: its variate is not modelled, the model gets what came out
+    gen_draws = [d for p, d in zip(procs, draws) if isinstance(p["strength"], dict) and p["strength"].get("distribution") in ("normal", "lognormal")]
+    err, out = None, None
+    try:
+        out = nm.sample(_QueueGen(gen_draws))
+    except ValueError:
+        err = "err:value"
+    probs = []
+    if _snap(nm.processes) != before:
+        probs.append("sample() wrote to the noise model it was called on")
+    model_draws = []
+    if out is not None:
+        for p_in, p_out, d in zip(nm.processes, out.processes, draws):
+            st = p_in["strength"]
+            v = p_out["strength"]
+            if not isinstance(v, float):
+                probs.append(f"sampled strength of {p_out['name']} is {type(v).__name__}, not float")
+            elif v < 0 and (isinstance(st, dict) or st >= 0):
+                probs.append(f"sampled strength of {p_out['name']} is negative: {v}")
+            if isinstance(st, dict) and st.get("distribution") == "truncated_normal" and abs(st.get("std", 0.0)) > 1e-8:
+                model_draws.append(float(v))
+            else:
+                model_draws.append(d)
+            for key in ("matrix", "factors"):
+                if key in p_in and key in p_out and _snap(p_in[key]) != _snap(p_out[key]):
+                    probs.append(f"sample() changed '{key}' of {p_out['name']}")
+            if p_out["sites"] != p_in["sites"] or p_out["name"] != p_in["name"]:
+                probs.append("sample() changed name/sites")
+        if len(out.processes) != len(nm.processes):
+            probs.append("sample() changed the number of processes")
+    else:
+        model_draws = draws
+    edge = any(isinstance(p["strength"], dict) and 0 < abs(abs(p["strength"].get("std", 0.0)) - 1e-8) < 1e-12 for p in procs)
+    req = "nsample " + " ".join(_strength_tok(p["strength"]) for p in nm.processes) + " | " + " ".join(ib.frac(d) for d in model_draws)
+    impl = err if err else "ok " + " ".join(ib.frac(p["strength"]) for p in out.processes)
+    return {"req": req, "impl": impl, "kind": "noise-sample", "edge": edge,
+            "oracle": {"ok": not probs, "detail": "; ".join(probs) or "sample() returns concrete non-negative floats and leaves its object alone"},
+            "sig": f"noise-sample:{impl.split()[0]}:{sorted({(p['strength'].get('distribution', '-') if isinstance(p['strength'], dict) else 'v') for p in procs}, key=str)}"}
+
+
+def noise_run_child(a):
+    """simulator.run with a noise model whose strengths are distributions: the caller's model is left alone, the sampled model is
+    stored on sim_params, and every trajectory of the run sees that one sampled model (static disorder)"""
+    mode, sub = a
+    os.environ["YAQS_MAX_WORKERS"] = "1"
+    rng = random.Random(sub)
+    L = 3
+    procs = [{"name": "lowering", "sites": [0], "strength": {"distribution": "lognormal", "mean": -2.0, "std": 0.3}},
+             {"name": "pauli_z", "sites": [2], "strength": 0.05},
+             {"name": "crosstalk_xy", "sites": [2, 0], "strength": {"distribution": "truncated_normal", "mean": 0.05, "std": 0.02}}]
+    rng.shuffle(procs)
+    nm = NoiseModel(procs)
+    before = _snap(nm.processes)
+    seen = []
+    state = MPS(L, state="x+")
+    if mode == "strong":
+        circ = QuantumCircuit(L)
+        circ.h(0); circ.cx(0, 1); circ.cx(1, 2)
+        params = StrongSimParams([Observable(Z(), 1)], num_traj=4, show_progress=False)
+        real = simulator.digital_tjm
+
+        def spy(args):
+            seen.append([p["strength"] for p in args[2].processes])
+            return real(args)
+
+        simulator.digital_tjm = spy
+        try:
+            simulator.run(state, circ, params, nm, parallel=False)
+        finally:
+            simulator.digital_tjm = real
+    else:
+        ham = MPO.ising(L, 1.0, 0.5)
+        params = AnalogSimParams([Observable(Z(), 1)], elapsed_time=0.2, dt=0.1, num_traj=4, show_progress=False, order=int(mode[-1]))
+        name = "analog_tjm_" + mode[-1]
+        real = getattr(simulator, name)
+
+        def spy(args):
+            seen.append([p["strength"] for p in args[2].processes])
+            return real(args)
+
+        setattr(simulator, name, spy)
+        try:
+            simulator.run(state, ham, params, nm, parallel=False)
+        finally:
+            setattr(simulator, name, real)
+    stored = params.noise_model
+    return {"unchanged": _snap(nm.processes) == before, "seen": seen,
+            "stored": [p["strength"] for p in stored.processes] if stored is not None else None,
+            "names_in": [p["name"] for p in nm.processes], "names_stored": [p["name"] for p in stored.processes] if stored is not None else None,
+            "fixed_in": [p["strength"] if not isinstance(p["strength"], dict) else None for p in nm.processes]}
+
+
+def run_noise_run(inp):
+    status, res = in_child(noise_run_child, (inp["mode"], inp["sub"]), timeout=240)
+    if status == "timeout":
+        raise RuntimeError("noise-run child timed out")
+    probs = []
+    if status == "exc":
+        probs.append(f"{inp['mode']}: {res}")
+    else:
+        if not res["unchanged"]:
+            probs.append("simulator.run wrote to the noise model it was given (distribution strengths replaced)")
+        if res["stored"] is None or res["names_stored"] != res["names_in"]:
+            probs.append(f"sim_params.noise_model after the run: {res['names_stored']} for {res['names_in']}")
+        else:
+            if not all(isinstance(v, float) and v >= 0 for v in res["stored"]):
+                probs.append(f"sampled strengths {res['stored']}")
+            for v, f in zip(res["stored"], res["fixed_in"]):
+                if f is not None and v != f:
+                    probs.append(f"numeric strength {f} became {v}")
+            if len(res["seen"]) != 4:
+                probs.append(f"{len(res['seen'])} trajectories ran for num_traj=4")
+            if any(s != res["stored"] for s in res["seen"]):
+                probs.append(f"trajectories saw strengths {res['seen']} but the run's sampled model has {res['stored']}")
+    return {"req": None, "impl": None, "kind": "noise-run",
+            "oracle": {"ok": not probs, "detail": "; ".join(probs) or f"{inp['mode']}: one sampled model per run, caller's model untouched"},
+            "sig": f"noise-run:{inp['mode']}"}
+
 def run(inp):
     res = run_inner(inp)
     if "corpus_file" in inp:
@@ -726,6 +996,12 @@ def run_inner(inp):
         return run_refused(inp)
     if k == "distinct-rows":
         return run_distinct(inp)
+    if k == "noise-init":
+        return run_noise_init(inp)
+    if k == "noise-sample":
+        return run_noise_sample(inp)
+    if k == "noise-run":
+        return run_noise_run(inp)
     raise ValueError(k)
 
 
